@@ -188,6 +188,36 @@ def build(c, root):
     return eng, src
 
 
+PROPAGATE_LIMIT = 40
+
+
+class PropagateTimeout(BaseException):
+    pass
+
+
+class time_limit:
+    """SIGALRM-based bound for one call in the (single-threaded) shard process."""
+
+    def __init__(self, seconds):
+        self.seconds = seconds
+
+    def __enter__(self):
+        import signal
+
+        def handler(signum, frame):
+            raise PropagateTimeout()
+
+        self.old = signal.signal(signal.SIGALRM, handler)
+        signal.alarm(self.seconds)
+
+    def __exit__(self, *exc):
+        import signal
+
+        signal.alarm(0)
+        signal.signal(signal.SIGALRM, self.old)
+        return False
+
+
 def live_children(exe_dir, grace=1.5):
     """Non-zombie processes whose command line mentions the run directory. A process that has been signalled may need
     a moment to be scheduled and die on a loaded machine: look again for up to `grace` seconds before reporting it;
@@ -305,7 +335,17 @@ def body(rec, c):
         err = None
         t0 = time.time()
         try:
-            success, status = eng.propagate(path, ens_set, system, reverse=c["reverse"])
+            with time_limit(PROPAGATE_LIMIT):
+                success, status = eng.propagate(path, ens_set, system, reverse=c["reverse"])
+        except PropagateTimeout:
+            # (a generous bound, not a correctness clock: these propagations take milliseconds to a few seconds; the external
+            #  program of the case has long exited or been told to stop when this fires)
+            for pid_, _ in _live_children(eng.exe_dir):
+                try:
+                    os.kill(int(pid_), 9)
+                except OSError:
+                    pass
+            raise Violation(f"{eng_name}:propagate-does-not-return", f"still inside propagate() after {PROPAGATE_LIMIT} s; case={c}")
         except RuntimeError as exc:
             err = exc
         except Exception as exc:  # noqa: BLE001
